@@ -64,6 +64,13 @@ def corpus():
     # empty regex match, float conversion, anonymous wildcards
     cs.append(dict(cmds=_adds(['/r/<x:re:[a-c]*>/t', '/fl/<v:float>', '/an/<:int>/<y>/:'])
                    + _probes(['/r//t', '/r/ab/t', '/r/x/t', '/fl/1.50', '/fl/-2', '/fl/3.', '/an/5/w/q', '/an/5//q', '/an/5/w'])))
+    # filters are matched once at the cursor on the REMAINING text path[i:]: a regex that looks at its own start
+    # (^, \A, \b, look-behind) or end ($) must not see the text in front of the cursor / be anchored to offset 0
+    cs.append(dict(cmds=_adds(['/items/<id:re:^[0-9]+$>', '/n/<k:re:(?<=/)[0-9]+>', '/w/x<v:re:(?<!x)[a-c]+>',
+                               '/b/a<v.re(\\b[a-c]+)>', '/s/<v:re:\\A[a-c]+>/t', '/d/7<v:re:(?<![0-9])[0-9]+>',
+                               '/e/<v:re:[a-c]+$>'])
+                   + _probes(['/items/42', '/items/4x', '/n/7', '/w/xab', '/w/ab', '/b/abc', '/s/ab/t', '/s/ab',
+                              '/d/75', '/d/7', '/e/abc', '/e/ab/c', '/e/abx'])))
     # adjacent wildcards, wildcard that swallows nothing in the middle
     cs.append(dict(cmds=_adds(['/w/<a><b>', '/w/<a:int><b>/k']) + _probes(['/w/x', '/w/12ab/k', '/w/12/k', '/w/'])))
     return cs
